@@ -78,6 +78,18 @@ Theorem C16_cache_graph_refuted : ~ C16_cache_graph.
 Proof. exact cache_graph_refuted. Qed.
 Print Assumptions C16_cache_graph_refuted.
 
+(* ---- marker names (Iterator.RecursionSupport): every Marshal builds a new root iterator, so
+   whatever was marshaled before, the k marked objects of a value are named 0 .. k-1 ---- *)
+Theorem C16_marker_names_reuse : forall history k,
+  run_reused marker_init marker_call history k = run_fresh marker_init marker_call k.
+Proof. exact marker_reuse. Qed.
+Print Assumptions C16_marker_names_reuse.
+
+Theorem C16_marker_names_from_zero : forall history k i, (i < N.to_nat k)%nat ->
+  nth i (run_reused marker_init marker_call history k) 0 = N.of_nat i.
+Proof. exact marker_names_spec. Qed.
+Print Assumptions C16_marker_names_from_zero.
+
 (* ---- the owners: an unmarshaler (builder session + CBE reader + validator) and
    the marshalers (iterator session + encoder); their answer is determined by
    the answers of their parts ---- *)
@@ -133,6 +145,12 @@ Example C16_ex_cache_cycle_witness :
   run_fresh gcache_init (gcache_call tb_cycle) (2, v_nilptr) = CErr /\
   g_map (fst (gcache_call tb_cycle gcache_init (1, v_T0))) = [(2, 2)].
 Proof. exact gcache_cycle_witness. Qed.
+
+(* marker names per document, and what one root iterator kept across calls would give *)
+Example C16_ex_marker_names :
+  run_all marker_call marker_init [1; 0; 2; 1] = [[0]; []; [0; 1]; [0]] /\
+  run_all marker_call_noreset marker_init [1; 0; 2; 1] = [[0]; []; [1; 2]; [3]].
+Proof. exact marker_witness. Qed.
 
 Example C16_ex_cache_after_failure :
   run_all (cache_call true) cache_init [TBad 1; TBad 1; TComp 2 [(true, TLeaf 3); (true, TBad 1)]; TLeaf 3]
